@@ -2,7 +2,7 @@
    Both are confirmed on the real `is_lottery_won` by the harness on every run
    (kinds witness-large-x / witness-phi-shortcut) and recorded in known_findings.json. *)
 From Coq Require Import Reals QArith Qcanon ZArith.
-From MV Require Import Base.Prelude Gen.Consts C08.Model C08.ProofsExp C08.ProofsLoop C08.ProofsLottery C08.ProofsWitness.
+From MV Require Import Base.Prelude Gen.Consts C08.Model C08.ProofsExp C08.ProofsSharp C08.ProofsLoop C08.ProofsLottery C08.ProofsWitness.
 Open Scope R_scope.
 
 (* the lost exit is wrong beyond its validity range: phi_f = 0.95, a party holding all the
@@ -12,6 +12,13 @@ Theorem C08_refuted_large_x : exists phi c ev stake total,
   lottery phi (Some c) ev stake total = Ok (Taylor Lost) /\
   draw ev < win_prob (QcR c) stake total.
 Proof. exact refuted_large_x. Qed.
+
+(* the validity range x <= 53/20 of C08_lost_sound is sharp: at x = 27/10, q = 147/10 the
+   loop answers Lost although q < exp x *)
+Theorem C08_refuted_at_2_7 :
+  taylor_comparison (N.to_nat TAYLOR_BOUND) (Q2Qc (147 # 10)) (Q2Qc (27 # 10)) = Lost /\
+  QcR (Q2Qc (147 # 10)) < exp (QcR (Q2Qc (27 # 10))).
+Proof. exact sharp_witness. Qed.
 
 (* phi_f = 1 - 2^-53 is treated as 1: won although the draw is above the exact threshold *)
 Theorem C08_refuted_phi_shortcut : exists phi c ev stake total,
